@@ -22,4 +22,12 @@ def canonName (name : String) : String :=
   | some (_, c) => c
   | none => name
 
+/-- the textual rewrites `parse_unyt_expr` applies before tokenising: `%` → `percent`, `°` → `deg` -/
+def parserRewrite (s : String) : String :=
+  String.ofList (s.toList.flatMap fun c =>
+    if c = '%' then "percent".toList else if c = '°' then "deg".toList else [c])
+
+/-- the symbol a single NAME token becomes: rewrites, then `inv_name_alternatives`, else itself -/
+def nameToSymbol (name : String) : String := canonName (parserRewrite name)
+
 end Unyt
